@@ -123,6 +123,32 @@ READY_PROFILE = {
 }
 # ---- end Engine.is_ready
 
+# ---- OutputVariable.defuzzify (C12): the value cascade of Op/Cascade.lean; the array `value` is the list of its rows
+XL = "List (X Rat)"
+CASCADE_PROFILE = {
+    "name": "OutputVariable_defuzzify", "module": "fuzzylite.variable", "object": "OutputVariable.defuzzify", "file": "CodeCascade",
+    # c: the settings of the variable; has_defuzzifier: `self.defuzzifier` is set; raw: what `defuzzifier.defuzzify(...)`
+    # returns or raises; s: value / previous_value before the call
+    "params": [("c", "Op.CascadeCfg Rat"), ("has_defuzzifier", "Bool"), ("raw", f"Py.M ({XL})"), ("s", "Op.OutState Rat")],
+    "init": {"self_value": "s.value", "self_previous_value": "s.previous"},
+    "locals": {"value": XL, "previous_value": "X Rat", "value_i": "X Rat", "self_value": XL, "self_previous_value": "X Rat"},
+    "externals": [
+        ("self.enabled", "c.enabled", "Bool", True),
+        ("self.defuzzifier", "has_defuzzifier", "Bool", True),
+        ("np.array(self.defuzzifier.defuzzify(self.fuzzy, self.minimum, self.maximum), dtype=float)", "raw", XL, False),
+        ("np.take(self.value, -1).astype(float)", "(Op.lastOr X.nan σ.self_value)", "X Rat", True),
+        ("self.lock_previous", "c.lockPrev", "Bool", True),
+        ("self.previous_value", "σ.self_previous_value", "X Rat", True),
+        ("self.default_value", "c.dflt", "X Rat", True),
+        ("np.isnan(_0)", "(X.isnan {0})", "Bool", True, ["X Rat"]),
+    ],
+    "stmt_externals": [
+        ("value[np.isnan(value)] = self.default_value", "{{ σ with value := Py.Cascade.maskNan σ.value c.dflt }}", True),
+        ("self.value = value", "{{ σ with self_value := Py.Cascade.setValue c σ.value }}", True),
+    ],
+}
+# ---- end OutputVariable.defuzzify
+
 PROFILES = [
     {
         "name": "Rule_parse", "module": "fuzzylite.rule", "object": "Rule.parse", "file": "CodeRule",
@@ -154,6 +180,7 @@ PROFILES = [
     act("Lowest", HEAP, [("n", "Nat")], fuel={2: "σ.activate.length + 1"}),
     act("Proportional", dict(DEG, sum_degrees="X Rat", activate="List Nat", ref="Nat"), loop_rename={2: {"rule": "ref"}}),
     READY_PROFILE,
+    CASCADE_PROFILE,
 ]
 
 FILES = {
@@ -161,4 +188,5 @@ FILES = {
     "CodeFunction": {"imports": ["FlVerif.Op.PyExt"]},
     "CodeActivation": {"imports": ["FlVerif.Op.PyExtAct"]},
     "CodeReady": {"imports": ["FlVerif.Op.PyExtReady"]},
+    "CodeCascade": {"imports": ["FlVerif.Op.PyExtCascade"]},
 }
